@@ -40,6 +40,10 @@ def cases(tier, seed):
         for op in ("rolling_sum", "rolling_max", "rolling_shift"):
             out.append({"op": op, "dtype": "float64", "N": 5, "G": 3, "W": 2, "min_periods": None if op == "rolling_shift" else 1, "mask": {"kind": "none"}})
             out.append({"op": op, "dtype": "float64", "N": 7, "G": 2, "W": 2, "min_periods": None if op == "rolling_shift" else 1, "mask": {"kind": "none"}})
+    for op in ("rolling_sum", "rolling_max", "rolling_shift"):
+        for comp in ([1, 3], [2, 2], [3, 1]):
+            out.append({"op": op, "dtype": "float64", "N": 4, "G": 2, "W": 2, "min_periods": None if op == "rolling_shift" else 1, "mask": {"kind": "bool_sym"},
+                        "chunks": comp})
     if tier == "quick":
         # a window longer than most groups can get, and min_periods well below it
         for op in F.OPS:
